@@ -45,6 +45,14 @@ WATCH = CRITICAL | {
 }
 
 
+PURE_LOCAL = {
+    "generic_visit", "make_interaction", "_interact", "generate_interactions", "delimit", "visit_body",
+    "should_instrument", "_ann", "_evaluate", "_wrap_call", "standalone_interaction", "_readline_mock",
+    "readline", "_compile", "_standard_info", "_mirror", "_unpack", "_decompose", "_only_names", "<listcomp>",
+    "<genexpr>", "<dictcomp>", "<lambda>", "__init__", "_get", "_set", "affix_to", "__str__", "__repr__",
+}
+
+
 class Deadlock(Exception):
     pass
 
@@ -235,14 +243,27 @@ def make_tracer(sched, interesting_files):
         if event != "call":
             return None
         co = frame.f_code
-        if co.co_filename == interesting_files[2]:
+        fname = co.co_filename
+        if fname == interesting_files[2]:
             return local  # the actor module: every line
-        if co.co_filename in interesting_files or co.co_filename.startswith(interesting_files[0]):
-            if co.co_name in CRITICAL:
+        if fname in interesting_files or fname.startswith(interesting_files[0]):
+            name = co.co_name
+            if name in CRITICAL:
                 frame.f_trace_opcodes = True
                 return local
-            if co.co_name in WATCH:
+            if name in WATCH:
                 return local
+            # anything else in ptera's runtime modules is traced by line too (robust against
+            # renamed internals); what is skipped is pure, thread-local work: parsing selectors
+            # and rewriting ASTs
+            base = os.path.basename(fname)
+            if base in ("opparse.py", "tags.py", "tools.py", "utils.py", "version.py"):
+                return None
+            if name.startswith("visit_") or name in PURE_LOCAL:
+                return None
+            if base == "selector.py" and name not in ("__call__", "check_captures", "dict_resolver", "resolve"):
+                return None
+            return local
         return None
 
     return glob
